@@ -431,11 +431,18 @@ def gen_op(rng, rel, origin, alpha, names):
         ls = rand_name(rng, alpha)
     names.append(ls)
     name = user_form(rng, rel, origin, ls)
-    if rng.random() < 0.03:
-        name = ls + [b"outside", b""]
+    r3 = rng.random()
+    if r3 < 0.03:
+        name = ls + [b"outside", b""]      # absolute, not under the origin: KeyError
+    elif r3 < 0.045:
+        name = [b"L" * 63, b"M" * 63, b"N" * 63, b"O" * 55] + ls[:1]   # relative, too long once derelativized
+    elif r3 < 0.055:
+        name = ls + origin[1:] if len(origin) > 1 else ls + [b"x", b""]   # a superdomain / sibling of the origin
     k = rng.choice([1, 1, 1, 1, 2, 2, 3, 4, 4, 5])
     rdtype = NS if rng.random() < 0.45 else rng.choice([1, 1, 16, 28, 15])
     ids = sorted(rng.sample(range(1, 5), rng.choice([1, 1, 2])))
+    if k == 5 and rng.random() < 0.06:
+        ids = []                            # an empty rdataset is falsy: delete(name, rdataset) deletes the name
     if k == 3:
         return [3, name]
     if k == 4:
@@ -521,26 +528,38 @@ def exhaustive_small(ctx):
 
 def cases(ctx):
     rng = ctx.rng
-    # the defects reproduced during design, as regression cases
-    o = [b"example", b""]
-    yield "regress", [1, o, [[1, 1, [[1, [], NS, [1]], [1, [b"sub"], NS, [1]], [1, [b"ns1", b"sub"], 1, [1]],
-                                     [1, [b"x", b"y", b"sub"], 1, [1]], [1, [b"text"], 16, [1]]], []],
-                             [0, 1, [[2, [b"sub"], 1, [9]]], [[b"sub0"], [b"zzz"], [b"a", b"sub"], [b"sub"], []]],
-                             [0, 1, [[3, [b"sub"]]], [[b"sub0"], [b"ns1", b"sub"]]]]]
-    yield "regress", [1, o, [[1, 1, [[1, [], NS, [1]], [1, [b"a", b"b"], NS, [1]], [1, [b"b"], NS, [1]],
-                                     [1, [b"z", b"b"], 1, [1]]], [[b"z", b"b"], [b"zz", b"b"], [b"c"]]],
-                             [0, 1, [[4, [b"b"], NS]], [[b"z", b"b"], [b"x", b"a", b"b"]]]]]
-    for _ in range(ctx.n(500, 12000)):
+    for _ in range(ctx.n(450, 7000)):
         yield "history", gen_history(ctx, rng)
-    for _ in range(ctx.n(40, 1500)):
+    for _ in range(ctx.n(40, 600)):
         yield "long", gen_history(ctx, rng, ntxn=rng.choice([8, 12]), nq=2)
-    for _ in range(ctx.n(60, 1500)):
+    for _ in range(ctx.n(50, 700)):
         yield from permuted_loads(ctx, rng)
     # all query names over the label alphabet on the final state
-    for _ in range(ctx.n(40, 800)):
+    for _ in range(ctx.n(40, 500)):
         c = gen_history(ctx, rng, nq=0)
         rel, origin, txns = c
         txns[-1][1] = 1
         txns[-1][3] = [user_form(rng, rel, origin, q, 0.05) for q in all_queries(ALPHA, ctx.n(3, 3))]
         yield "bounds-all", c
     yield from exhaustive_small(ctx)
+
+
+def widen(ctx, disagreements):
+    """proof or correspondence broke and the oracle found nothing on this run's cases: search further
+    (other seeds, all 3-operation sequences) with the oracle alone"""
+    import random
+    found = []
+    for seed in range(2, 8):
+        rng = random.Random(seed * 7919)
+        for _ in range(1500):
+            case = gen_history(ctx, rng)
+            out = impl(case)
+            from lib import normalize
+            f = oracle(ctx, "widen", normalize(case), normalize(out))
+            if f:
+                f[0]["case"] = case
+                f[0]["case_kind"] = "widen"
+                found.append(f[0])
+                if len(found) >= 3:
+                    return found
+    return found
